@@ -341,18 +341,17 @@ def _fill_in_default_arguments(func: Callable, call: ast.Call) -> Tuple[ast.Call
     i_arg = 0
     arg_array = list(call.args)
     keywords = list(call.keywords)
+    # The library's own stream operators (Select, Where, ...) keep exactly the arguments the
+    # user wrote: their extra parameters are internal.
+    is_stream_operator = getattr(func, "__module__", None) == ObjectStream.__module__
     for param in sig.parameters.values():
-        if param.name != "self":
+        if param.name != "self" and not is_stream_operator:
             if len(arg_array) <= i_arg:
                 # See if they specified it as a keyword
                 a, keywords = _find_keyword(keywords, param.name)
                 if a is not None:
                     arg_array.append(a)  # type: ignore
                 elif param.default is not param.empty:
-                    if not isinstance(param.default, (str, int, float, bool, complex, bytes, type(None))):
-                        # Not something that can be written into the query (e.g. the internal
-                        # `known_types={}` of the stream operators): leave the call as it is.
-                        break
                     a = as_literal(param.default)
                     arg_array.append(a)
                 else:
